@@ -509,6 +509,49 @@ def raw_case(args):
     return label, probs, counts
 
 
+def stmt_libs():
+    """User statement blocks that change the C wrapper's result type (cstatements.rst: return_type "when it is different than
+    the functions return type"): original result type x new type, for functions and for subroutines, C and C++."""
+    out = []
+    for lang in ("cxx", "c"):
+        decls, hdr = [], []
+        k = 0
+        for orig in ("void", "int", "double", "long"):
+            for new in ("long", "double", "int"):
+                if new == orig:
+                    continue
+                k += 1
+                name = "rt%d" % k
+                hdr.append("%s %s(int n);" % (orig, name))
+                ret = "return (%s) n;" % new if orig == "void" else "return (%s) {C_result};" % new
+                decls.append({"decl": "%s %s(int n)" % (orig, name), "fstatements": {"c": {"return_type": new, "ret": [ret]}}})
+        # the same through the buffer variant of a function with a string argument
+        hdr.append("int rtbuf(const char *s);")
+        decls.append({"decl": "int rtbuf(const char *s)", "fstatements": {"c": {"return_type": "double", "ret": ["return (double) {C_result};"]},
+                                                                           "c_buf": {"return_type": "double", "ret": ["return (double) {C_result};"]}}})
+        hname = "rtype.hpp" if lang == "cxx" else "rtype.h"
+        y = {"library": "rtype", "cxx_header": hname, "options": {"wrap_python": False, "wrap_lua": False}, "declarations": decls}
+        if lang == "c":
+            y["language"] = "c"
+        out.append(("statement blocks with return_type (%s)" % lang, lang, y, hname, "\n".join(hdr) + "\n"))
+    return out
+
+
+def stmt_case(args):
+    workdir, label, lang, y, hname, hdr = args
+    os.makedirs(workdir)
+    r, tree = gen.gen_tree(workdir, y, keep=True)
+    if r.status != "ok":
+        shutil.rmtree(workdir, ignore_errors=True)
+        return label, [("generation", "%s: generation fails: %s %s" % (label, r.exc, (r.msg or "")[:200]))], {"interfaces": 0, "structs": 0}
+    out = os.path.join(workdir, "out")
+    with open(os.path.join(out, hname), "w") as fp:
+        fp.write(hdr)
+    probs, counts = compare_dir(out, lang, [hname], [], label)
+    shutil.rmtree(workdir, ignore_errors=True)
+    return label, probs, counts
+
+
 def run(ctx):
     quick = ctx.tier == "quick"
     W = ctx.workers
@@ -560,6 +603,12 @@ def run(ctx):
         ctx.outcome("raw %s" % ("ok" if not probs else "bad"))
         for key, msg in probs:
             ctx.violation("raw %s %s" % (label, key), msg, {"kind": "raw", "label": label})
+    sjobs = [(os.path.join(wd, "stmt%d" % i),) + t for i, t in enumerate(stmt_libs())]
+    for label, probs, counts in isolate.pmap(stmt_case, sjobs, W):
+        gif += counts["interfaces"]
+        ctx.outcome("stmt %s" % ("ok" if not probs else "bad"))
+        for key, msg in probs:
+            ctx.violation("raw %s %s" % (label, key), msg, {"kind": "stmt", "label": label})
     total = nif + gif
     ctx.count(states=len(cres) + len(gres) + len(rres), transitions=total + nst + gst, validated=total + nst + gst)
     ctx.nontrivial_n(total)
